@@ -95,6 +95,22 @@ def call(op, objs, args, entry="method"):
 
     if op in ("from_blocks", "construct", "from_fill_fn", "from_dense"):
         return (construct(op, objs, a),)
+    if op == "fresh":
+        # the call a["call"] = {"op", "args", "entry"} on copies of the operands, in a new interpreter
+        import os
+        import pickle
+        import subprocess
+        import sys
+
+        c = a["call"]
+        p = subprocess.run([sys.executable, "-m", "harness.fresh_call"], input=pickle.dumps((c["op"], objs, c.get("args", {}), c.get("entry", "method"))),
+                           capture_output=True, cwd=os.path.dirname(os.path.dirname(os.path.abspath(__file__))), env=dict(os.environ))
+        if p.returncode != 0:
+            raise RuntimeError("fresh interpreter failed: " + p.stderr.decode()[-500:])
+        out = json.loads(p.stdout.decode())
+        if out["outcome"] != "ok":
+            raise RuntimeError("raised in the fresh interpreter: " + out["exc"])
+        return tuple(out["results"])
     if op == "set_cache":
         import symmray.abelian_core as _ac
 
